@@ -58,6 +58,9 @@ pub enum IndexSpec {
     Complete,
     /// same schema, other documents (some shipped facts, fake facts)
     Foreign,
+    /// what another version of the tool might have left: same field names, but the name field
+    /// indexed with another tokenizer and not stored, other documents
+    ForeignSchema,
 }
 
 #[derive(Serialize, Deserialize, Clone, Debug, PartialEq, Eq)]
@@ -91,6 +94,7 @@ pub struct Reference {
     pub hash: String,
     pub gold_index: PathBuf,
     pub foreign_index: PathBuf,
+    pub foreign_schema_index: PathBuf,
 }
 
 #[derive(Deserialize)]
@@ -338,6 +342,7 @@ pub fn fabricate(p: &Paths, spec: &StateSpec, r: &Reference) -> std::io::Result<
         IndexSpec::Absent => {}
         IndexSpec::Complete => copy_dir(&r.gold_index, &p.index())?,
         IndexSpec::Foreign => copy_dir(&r.foreign_index, &p.index())?,
+        IndexSpec::ForeignSchema => copy_dir(&r.foreign_schema_index, &p.index())?,
     }
     Ok(())
 }
@@ -387,11 +392,12 @@ pub fn damage(p: &Paths, d: &Damage, r: &Reference) -> std::io::Result<()> {
 /// shipped data) once the tool has recovered.
 pub const FAKE_PHRASES: &[&str] = &["zzzfake quux", "population world", "verifonly"];
 
-fn tool_schema() -> (Schema, tantivy::schema::Field, tantivy::schema::Field) {
+fn tool_schema(other_version: bool) -> (Schema, tantivy::schema::Field, tantivy::schema::Field) {
     let text_field_indexing = TextFieldIndexing::default()
-        .set_tokenizer("ngram")
-        .set_index_option(IndexRecordOption::WithFreqsAndPositions);
-    let text_options = TextOptions::default().set_indexing_options(text_field_indexing).set_stored();
+        .set_tokenizer(if other_version { "default" } else { "ngram" })
+        .set_index_option(if other_version { IndexRecordOption::Basic } else { IndexRecordOption::WithFreqsAndPositions });
+    let text_options = TextOptions::default().set_indexing_options(text_field_indexing);
+    let text_options = if other_version { text_options } else { text_options.set_stored() };
     let mut sb = Schema::builder();
     let fd = sb.add_bytes_field("data", STORED);
     let fname = sb.add_text_field("name", text_options);
@@ -409,8 +415,8 @@ struct FakeConstant {
 
 /// Build the "foreign" index: the tool's schema, but other documents — a few shipped constants
 /// (most are missing) plus fake facts, one of which shadows a real phrase.
-pub fn build_foreign(dir: &Path, shipped: &Shipped) -> Result<(), String> {
-    let (schema, fd, fname) = tool_schema();
+pub fn build_foreign(dir: &Path, shipped: &Shipped, other_version_schema: bool) -> Result<(), String> {
+    let (schema, fd, fname) = tool_schema(other_version_schema);
     fs::create_dir_all(dir).map_err(|e| e.to_string())?;
     let index = Index::create_in_dir(dir, schema).map_err(|e| e.to_string())?;
     index
